@@ -232,6 +232,12 @@ func buildVal(n *sx) (any, error) {
 		return make(chan int), nil
 	case "func":
 		return func() {}, nil
+	case "nilchan":
+		var c chan int
+		return c, nil
+	case "nilfunc":
+		var f func()
+		return f, nil
 	case "complex":
 		return complex(1, 2), nil
 	case "array2":
